@@ -32,6 +32,23 @@ func zzC15PTFRoute(which int) {
 	vObserve("w", g.W[0])
 	vObserve("wmin", g.WMIN[0])
 	vObserve("wred", g.WRED)
+	// the route hands every transfer function its own arguments (organic carbon, clay, and silt - sand for the
+	// fourth): the layer gets exactly what the function returns for this soil
+	var fc, wp float64
+	switch which {
+	case 1:
+		fc, wp = PTF1(corg, clay, silt)
+	case 2:
+		fc, wp = PTF2(corg, clay, silt)
+	case 3:
+		fc, wp = PTF3(corg, clay, silt)
+	default:
+		fc, wp = PTF4(corg, clay, sand)
+	}
+	vAssert("C15.ptfroute.layer_gets_the_selected_functions_values", g.W[0] == fc && g.WMIN[0] == wp && g.PORGES[0] == g.GPV[0]/100)
+	if which == 4 {
+		return // the ordering of the fourth function's values is not decided by any solver (outside the claim)
+	}
 	vAssert("C15.ptfroute.ordered", 0 < g.WMIN[0] && g.WMIN[0] < g.W[0] && g.W[0] < 1)
 	vAssert("C15.ptfroute.wnor_is_fc", g.WNOR[0] == g.W[0])
 	if !vKnown("C15-wred-units-ptf-route") {
